@@ -114,6 +114,7 @@ type FuncContract struct {
 	AllocBound *Clause
 	Forbids    []string
 	Decreases  *Clause
+	Covers     []Clause // vacuity guards: the condition must be satisfiable at some return (reported when it is refuted)
 	Implements string // named function type whose "(T).call" contract this function is verified against (and may stand in for)
 }
 
@@ -616,7 +617,7 @@ var clauseKW = map[string]bool{
 	"requires": true, "ensures": true, "assigns": true, "loop": true, "safety": true,
 	"props": true, "trusted": true, "inline": true, "pure": true, "maypanic": true, "nobody": true,
 	"extern": true, "opaque": true, "uses": true, "allocbound": true, "forbids": true, "decreases": true, "invariant": true, "defines": true, "assumes": true, "proves": true, "wraparound": true, "reveals": true, "trustedframe": true,
-	"guarded": true, "immutable": true, "implements": true, "onceguarded": true, "exclusive": true,
+	"covers": true, "guarded": true, "immutable": true, "implements": true, "onceguarded": true, "exclusive": true,
 }
 
 type rawClause struct {
@@ -789,6 +790,13 @@ func ParseContractFile(path string) (*ContractFile, error) {
 				} else {
 					cur.Decreases = cl
 				}
+			case "covers":
+				label, text := splitLabel(rc.text)
+				e, err := ParseExpr(text)
+				if err != nil {
+					return nil, fail(err)
+				}
+				cur.Covers = append(cur.Covers, Clause{Label: label, E: e, Text: text, Line: rc.line, File: path})
 			case "requires", "ensures", "defines", "assumes", "proves":
 				label, text := splitLabel(rc.text)
 				e, err := ParseExpr(text)
